@@ -134,10 +134,53 @@ def perturb(a, kind, rng):
     elif kind == 'drop':
         if not ls:
             return None
-        _, l = rng.choice(ls)
+        f, l = rng.choice(ls)
         if not l:
             return None
         l.pop(rng.randrange(len(l)))
+        if not l and rng.random() < 0.7:
+            # the position lost its only modification: it is then simply unmodified (no empty list left behind)
+            if f.startswith('internal'):
+                b._internal_mods.pop(int(f[8:]))
+                if not b._internal_mods and rng.random() < 0.5:
+                    b._internal_mods = None
+            elif f.startswith('interval'):
+                b._intervals[int(f[8:])].mods = None
+            else:
+                setattr(b, f, None)
+    elif kind == 'drop_residue_mods':
+        # all modifications of ONE residue go while other residues stay modified
+        if not b._internal_mods or len(b._internal_mods) < 2:
+            return None
+        b._internal_mods.pop(rng.choice(list(b._internal_mods)))
+    elif kind == 'add':
+        # a modification on a previously unmodified residue / terminus / global list / interval (inverse of a drop)
+        m = dc.Mod(rng.choice(value_pool()), rng.choice([1, 1, 2]))
+        n = len(b)
+        opts = [i for i in range(n) if not (b._internal_mods and i in b._internal_mods)]
+        targets = [('residue', i) for i in opts]
+        targets += [('field', f) for f in ('_labile_mods', '_unknown_mods', '_nterm_mods', '_cterm_mods') if getattr(b, f) is None]
+        targets += [('ivmods', i) for i, iv in enumerate(b._intervals or []) if iv.mods is None]
+        if n >= 2:
+            targets.append(('interval', None))
+        if not targets:
+            return None
+        t, x = rng.choice(targets)
+        if t == 'residue':
+            if b._internal_mods is None:
+                b._internal_mods = {}
+            if rng.random() < 0.5:
+                b._internal_mods[x] = [m]                    # appended at the end of the dict
+            else:
+                b._internal_mods = {x: [m], **b._internal_mods}   # or put first
+        elif t == 'field':
+            setattr(b, x, [m])
+        elif t == 'ivmods':
+            b._intervals[x].mods = [m]
+        else:
+            s0 = rng.randint(0, n - 2)
+            iv = dc.Interval(s0, rng.randint(s0 + 1, n), rng.random() < 0.3, [m] if rng.random() < 0.6 else None)
+            b._intervals = (b._intervals or []) + [iv]
     elif kind == 'duplicate':
         if not ls:
             return None
@@ -174,7 +217,7 @@ def perturb(a, kind, rng):
 
 
 PERTURBATIONS = ['value', 'multiplier', 'position', 'interval_bound', 'charge', 'drop', 'duplicate', 'residue', 'drop_field',
-                 'interval_mods_none', 'drop_interval', 'duplicate_interval']
+                 'interval_mods_none', 'drop_interval', 'duplicate_interval', 'drop_residue_mods', 'add']
 
 
 def permute(a, rng, reverse=False):
@@ -441,6 +484,7 @@ def run(chk):
             chk.count('perturb_' + kind)
             pairs.append((kind, da, annot.dump(b, sort_internal=False)))
         pairs.append(('unrelated', da, annot.dump(rng.choice(anns), sort_internal=False)))
+    pairs += [(lab + '_swapped', db, da) for lab, da, db in pairs]   # every pair in both directions
 
     def eq_impl(c):
         _, da, db = c
@@ -450,8 +494,24 @@ def run(chk):
             return 'inconsistent != operator'
         return str(r)
 
+    def o_pair(c):
+        lab, da, db = c
+        a, b = annot.undump(da), annot.undump(db)
+        ab, ba, nab, nba = (a == b), (b == a), (a != b), (b != a)
+        if ab != ba:
+            return f'equality is not symmetric ({lab}): a == b is {ab}, b == a is {ba}'
+        if nab == ab or nba == ba:
+            return f'!= disagrees with == ({lab})'
+        base = lab.replace('_swapped', '')
+        if base in ('copy', 'permute') and not ab:
+            return f'{base}: not equal'
+        if base in PERTURBATIONS and ab:
+            return f'equality blind to {base}'
+        return None
+
     chk.correspond('eq', DRV, pairs, lambda c: f'eq\t{c[1]}\t{c[2]}', eq_impl,
                    nontrivial_fn=lambda c, im: c[1].count('N') < 9)
+    chk.oracle('eq_pairs_symmetric', pairs, o_pair, nontrivial_fn=lambda c: c[1] != c[2], key_fn=lambda c: c[1] + ' ' + c[2])
 
     # multiset equality of mod lists over a small pool (many coincidences), None vs list
     small = [1, 1.0, 2, 2.0, 'a', 'b', 0, 0.0, -0.0, 1e+16, 10 ** 16, 100, 100.0, 'Oxidation']
@@ -509,8 +569,8 @@ def run(chk):
     def o_mod(c):
         x, y = annot.parse_mod(c[0]), annot.parse_mod(c[1])
         want = (x.val == y.val) and (x.mult == y.mult)
-        if (x == y) != want or (y == x) != want:
-            return f'Mod {x!r} == {y!r} is {x == y}, values/multipliers say {want}'
+        if (x == y) != want or (y == x) != want or (x != y) == want or (y != x) == want:
+            return f'Mod {x!r} == {y!r} is {x == y} / {y == x} (!=: {x != y} / {y != x}), values/multipliers say {want}'
         if want and hash(x) != hash(y):
             return f'equal Mods {x!r}, {y!r} with different hashes'
         if (x == y.val) != (x.val == y.val and x.mult == 1):
@@ -523,6 +583,12 @@ def run(chk):
         x, y = a
         if (x == y) != (y == x):
             return f'Interval equality not symmetric: {x!r}, {y!r}'
+        if (x != y) == (x == y) or (y != x) == (y == x):
+            return f'Interval != disagrees with ==: {x!r}, {y!r}'
+        want = (x.start, x.end, x.ambiguous) == (y.start, y.end, y.ambiguous) and dc.are_mods_equal(x.mods, y.mods) and \
+            dc.are_mods_equal(y.mods, x.mods)
+        if (x == y) != want:
+            return f'Interval {x!r} == {y!r} is {x == y}, fields say {want}'
         if x == y and hash(x) != hash(y):
             return f'equal Intervals {x!r}, {y!r} with different hashes (Counter-based comparison will miss them)'
         return None
@@ -536,7 +602,7 @@ def run(chk):
                    nontrivial_fn=lambda c, im: im == 'True')
 
     # ------------------------------------------------------------------ correspondence: dictionaries, strip, create
-    dumps = [annot.dump(a) for a in anns]
+    dumps = [annot.dump(a, sort_internal=False) for a in anns]   # dict insertion order kept
     chk.correspond('mod_dict', DRV, dumps, lambda d: f'moddict\t{d}', lambda d: show_dict(annot.undump(d).mod_dict()),
                    compare=lambda im, m: im == canon_dict(m), nontrivial_fn=lambda d, im: bool(im))
     chk.correspond('pt_pop_mods', DRV, dumps, lambda d: f'ptpopmods\t{d}',
@@ -645,6 +711,8 @@ def run(chk):
                 if b is None:
                     continue
                 ab, ba = (a == b), (b == a)
+                if (a != b) == ab or (b != a) == ba:
+                    return f'!= disagrees with == under {kind}'
                 if ab != ba:
                     return f'not symmetric under {kind}: {annot.dump(a, False)} vs {annot.dump(b, False)}'
                 if ab:
